@@ -1000,6 +1000,11 @@ func (in *Interp) valEq(a, b Value) *Term {
 		if x.sort == SFP || x.sort == SReal {
 			return in.tt.FCmp(in.cfg, "==", x, y)
 		}
+		if in.cfg.Dom == SReal && x.sort == SBV && !x.IsConst() && !y.IsConst() {
+			if r, ok := in.tt.shadowCmp("=", true, x, y); ok {
+				return r
+			}
+		}
 		return in.tt.Eq(x, y)
 	case *Agg:
 		y := b.(*Agg)
@@ -1193,6 +1198,11 @@ func (in *Interp) binop(op token.Token, xt types.Type, a, b Value, yt types.Type
 			}
 		case token.LSS, token.LEQ, token.GTR, token.GEQ:
 			name := map[token.Token]string{token.LSS: "lt", token.LEQ: "le", token.GTR: "gt", token.GEQ: "ge"}[op]
+			if in.cfg.Dom == SReal {
+				if r, ok := in.tt.shadowCmp(op.String(), signed, x, y); ok {
+					return r
+				}
+			}
 			if signed {
 				return in.tt.BVCmp("bvs"+name, x, y)
 			}
